@@ -713,7 +713,7 @@ def run(ctx):
 
         # ---- (a) serialize, (c) deserialize on objects
         real = [(lbl, o) for lbl, o in compiled_objects(ctx, True)]
-        gen = [('gen#%d' % k, gen_object(ctx, ids)) for k in range(110 if ctx.quick() else 1200)]
+        gen = [('gen#%d' % k, gen_object(ctx, ids)) for k in range(110 if ctx.quick() else 600)]
         cases, recs = [], []
         seen = set()
         nontriv = 0
@@ -743,7 +743,7 @@ def run(ctx):
             cases.append(('let o := %s in (serialize o, deserialize (serialize o))' % obj_term(o),
                           (json_val(d), impl_deserialize(d))))
             recs.append(('serialize / deserialize', lbl))
-        for k in range(9 if ctx.quick() else 80):
+        for k in range(9 if ctx.quick() else 40):
             o = gen_object(ctx, ids, small=True)
             if o.sections and o.symbols:
                 mut_src.append(('small#%d' % k, o.serialize()))
